@@ -96,7 +96,7 @@ CHECKS = {
     technique="Coq proof (reset refines to the initial state; induction over message sequences) + sequence-mode differential correspondence",
     design="§2 C04"),
  "C14": dict(
-    text="Partial. Theorems C14_size_exact (a request within the limit is never refused and is delivered at its last read; over the limit the first read crossing it is answered 413 and the handler is never reached - for every segmentation), C14_timeout_rule and corollaries (decision rule of the idle scan). Tied to /repo at parser level with limits len-2..len+1 at every cut. Residue: wall-clock behaviour of the 500 ms scan and option propagation are not exercised in the quick tier.",
+    text="Partial. Theorems C14_size_exact (a request within the limit is never refused and is delivered at its last read; over the limit the first read crossing it is answered 413 and the handler is never reached - for every segmentation), C14_timeout_rule and corollaries (decision rule of the idle scan). Tied to /repo at parser level with limits len-2..len+1 at every cut, and for the time-outs by a live endpoint (header/body time-outs 600-2300 ms) with one raw client pacing a request: stalls after connect, inside the request line, the headers and the body, on either side of the applicable time-out, also after a completed request; status codes, connection close and handler runs are compared with the model's rule evaluated at every phase of the 500 ms scan (scripts the rule does not decide for every phase are skipped). Residue: the scan period itself and option propagation to several workers.",
     note="Closed under the global context. The hypothesis 'every proper prefix at a read boundary is incomplete' is discharged by the oracle on generated well-formed requests (Done exactly at the last byte).",
     technique="Coq proof over the onInput/feed model + differential correspondence at limit-1/limit/limit+1 for every cut",
     design="§2 C14"),
